@@ -158,3 +158,30 @@ PW = z3.RecFunction('PW', R, I, R)
 _x = z3.Const('pw_x', R)
 _m = z3.Const('pw_n', I)
 z3.RecAddDefinition(PW, [_x, _m], z3.If(_m <= 0, z3.RealVal(1), _x * PW(_x, _m - 1)))
+
+
+def forall(vs, body, patterns=None, qid=""):
+    """ForAll with patterns when z3 accepts them, without otherwise"""
+    if patterns:
+        try:
+            return z3.ForAll(vs, body, patterns=patterns, qid=qid)
+        except z3.Z3Exception:
+            pass
+    return z3.ForAll(vs, body, qid=qid)
+
+
+# abstract multiplication for quantifier-heavy contexts (contract option nonlinear='abstract'):
+# x * y between two non-literal reals becomes MUL(x, y) with the instantiated facts of mul_facts();
+# every fact is a theorem of real arithmetic (checked once per run by lemmas.prove_builtin with z3's NRA)
+MUL = z3.Function('MUL', R, R, R)
+
+
+def mul_facts(x, y, t):
+    return [z3.Implies(z3.Or(x == 0, y == 0), t == 0),
+            z3.Implies(x == 1, t == y), z3.Implies(y == 1, t == x),
+            z3.Implies(z3.And(x >= 0, y >= 0), t >= 0),
+            z3.Implies(z3.And(x > 0, y > 0), t > 0),
+            z3.Implies(z3.And(x >= 0, y >= 0, y <= 1), t <= x),
+            z3.Implies(z3.And(x >= 0, y >= 0, x <= 1), t <= y),
+            z3.Implies(z3.And(x > 0, y >= 0, y < 1), t < x),
+            z3.Implies(z3.And(x > 0, y > 0, y < 1), z3.And(t > 0, t < x))]
